@@ -218,3 +218,6 @@ def replay(ctx, payload):
     else:
         check_scans(ctx, "replay", [inp])
     return {"fails": bool(ctx.out.oracle_failures or ctx.out.disagreements), "oracle": ctx.out.oracle_failures, "disagreements": ctx.out.disagreements}
+
+
+LEVEL_NOTE = "; ".join(TRUSTED) + '. NEW (T1b): the four predicates are translated from the current source and the whole algebra (symmetry, intersection size, abut ⇔ gap 0, trichotomy) is proved for the translation (Properties/C19Source.lean)'
